@@ -263,6 +263,10 @@ func (e *Engine) VerifyFunc(fn *ssa.Function, fc *FuncContract) (v *FnVerifier) 
 			}
 		}
 	}
+	if fc.Safety["allocbound"] || fc.Safety["all"] {
+		budget := v.heap(st, v.ghostKey("inputBudget", "Int"))
+		v.smt.assert(and("(<= 0 "+budget+")", "(< "+budget+" 1099511627776)")) // inputs are shorter than 2^40 bytes
+	}
 	o := v.addObl(st, "cover", "entry", "false", "precondition is satisfiable", fc.Serves, fn.Pos())
 	o.Cover = true
 	fr.run(st, args)
